@@ -325,6 +325,88 @@ def rule_r6(F, rep):
     rep.floor(R, n, 2, "float division / remainder sites")
 
 
+def rule_r7(F, rep):
+    """Comprehension scoping: `for x in ...` binds x on top of the variables bound so far (an inner `for x` shadows an outer one)."""
+    from . import pushgraph, cfg
+    R = rep.rule("C02.R7", "in a comprehension the variable of a `for` is bound after the variables inherited from the enclosing "
+                 "`for`s: in the GotForSpec arm the insert of the loop variable is the last write to the per-iteration map "
+                 "before the map is stored (a later bulk copy would let an outer variable of the same name win)")
+    G = pushgraph.PushGraph(F)
+    run = G.run
+    body = run.body
+    sw, ent = G.arm_entries()
+    if "GotForSpec" not in ent:
+        raise facts.AnchorMissing("State::GotForSpec arm")
+    tail = {bb for bb, t in body.calls() if (callee_name(t) or "") == "<%s>::maybe_gc" % em.PROGRAM}
+    arm = cfg.reachable(body.succ_map(), [ent["GotForSpec"]], blocked_nodes=list(tail | {sw}))
+    n = 0
+    for bb in sorted(arm):
+        blk = body.blocks[bb]
+        t = blk["t"]
+        if blk["cleanup"] or t["k"] != "call":
+            continue
+        nm = callee_name(t) or ""
+        if not (nm.endswith("HashMap>::insert") or nm.endswith("::insert")) or "Map" not in nm:
+            continue
+        # which local is the map?  first argument is `&mut M` (possibly via a temporary)
+        def map_local(x):
+            if x.get("k") not in ("move", "copy") or x["p"]:
+                return None
+            defs = [st for b2 in arm for st in body.blocks[b2]["s"]
+                    if st["k"] == "assign" and st["p"]["l"] == x["l"] and not st["p"]["p"]]
+            if len(defs) == 1 and defs[0]["rv"]["k"] == "ref":
+                pl = defs[0]["rv"]["p"]
+                if not [p for p in pl["p"] if p != "*"]:
+                    return pl["l"]
+            return None
+        M = map_local(t["xs"][0])
+        if M is None:
+            continue
+        n += 1
+        # forward from the insert until the map is moved away
+        seen = set()
+        todo = [t["t"]] if t.get("t") is not None else []
+        late = []
+        ins_ref = t["xs"][0].get("l")
+        all_borrows = {st["p"]["l"] for b2 in arm for st in body.blocks[b2]["s"]
+                       if st["k"] == "assign" and st["rv"]["k"] == "ref" and st["rv"]["m"] and st["rv"]["p"]["l"] == M
+                       and not [p for p in st["rv"]["p"]["p"] if p != "*"]} - {ins_ref}
+        while todo:
+            b = todo.pop()
+            if b in seen or b not in arm:
+                continue
+            seen.add(b)
+            bk = body.blocks[b]
+            if bk["cleanup"]:
+                continue
+            borrows = set(all_borrows)
+            for st in bk["s"]:
+                if st["k"] == "assign" and st["rv"]["k"] == "ref" and st["rv"]["m"] and st["rv"]["p"]["l"] == M \
+                        and not [p for p in st["rv"]["p"]["p"] if p != "*"]:
+                    borrows.add(st["p"]["l"])
+            tt = bk["t"]
+            moved = False
+            if tt["k"] == "call":
+                for x in tt["xs"]:
+                    if x.get("k") == "move" and x.get("l") == M and not x["p"]:
+                        moved = True
+                    if x.get("k") in ("move", "copy") and x.get("l") in borrows:
+                        late.append((b, callee_name(tt) or "?"))
+            if tt["k"] == "drop" and tt["p"]["l"] == M:
+                moved = True
+            if moved:
+                continue
+            todo.extend(body.succs(b))
+        ok = not late
+        rep.ob(R, "GotForSpec|insert@bb%d" % bb, ok, {"map_local": M, "writes_after_insert": [c for _, c in late]})
+        if not ok:
+            rep.violation(R, "GotForSpec|write-after-loop-variable|%s" % late[0][1].rsplit("::", 1)[-1],
+                          "after binding the `for` variable the per-iteration map is written again by %s: entries copied later "
+                          "replace the loop variable when an enclosing `for` used the same name (`[x for x in a for x in b]` "
+                          "yields the outer x)" % late[0][1], run.loc)
+    rep.floor(R, n, 1, "loop-variable inserts in the GotForSpec arm")
+
+
 def run(F, rep, tier):
     rule_r1(F, rep)
     rule_r2(F, rep)
@@ -333,6 +415,7 @@ def run(F, rep, tier):
     objflags.rule(F, rep, "C02.R4")
     rule_r5(F, rep)
     rule_r6(F, rep)
+    rule_r7(F, rep)
     from . import c07
     c07.rule_r5(F, rep)      # super / +: inside a field resolve from the layer the field was found in
     from . import visibility
